@@ -546,6 +546,15 @@ func buildScript(seed uint64, p *ScriptPlan) (*built, error) {
 			sealCfg = cat
 		case "wrong-id-ext": // the extension names another config id than the one sealed for
 			sealID = p.Target.ID + byte(1+m.A%255)
+			if m.B%2 == 1 {
+				// ... the id of ANOTHER key the server holds (which lists the suite)
+				for _, k := range p.Keys {
+					if k.KeySeed != p.Target.KeySeed && !k.BadConfig && !k.OtherKEM && k.ID != p.Target.ID && slices.Contains(k.Suites, suite) {
+						sealID = k.ID
+						break
+					}
+				}
+			}
 		case "unlisted-suite": // sealed (and labelled) with a suite the key's config does not list
 			for _, cand := range echbox.AllSuites {
 				listed := false
